@@ -21,7 +21,9 @@ def profiles(tier):
         dict(n=60 if q else 800, maxlen=20, nremotes=2, caps=(24, 64, 4096), vlanes=[], mlanes=["map", "omap"], usecmd=True, keys=(1, 2, 3), faults=("drop",)),
         dict(n=50 if q else 800, maxlen=28, nremotes=3, caps=(24, 48), vlanes=[], mlanes=["map"], usecmd=False, keys=(1, 2), faults=()),
         dict(n=60 if q else 1000, maxlen=24, nremotes=2, caps=(24, 4096), vlanes=[], mlanes=["map"], usecmd=True, keys=(1, 2, 3), faults=(), burst=True),
-        dict(n=30 if q else 400, maxlen=22, nremotes=2, caps=(32, 4096), vlanes=["val"], mlanes=["omap", "tmap"], usecmd=True, keys=(1, 2, 3), faults=("dropread",)),
+        dict(n=30 if q else 400, maxlen=22, nremotes=2, caps=(32, 4096), vlanes=["val"], mlanes=["omap", "tmap"], usecmd=True, keys=(1, 2, 3), faults=("dropread", "badcmd")),
+        # transform_entry / replace_map, instructions run from timers / suspended futures
+        dict(n=50 if q else 600, maxlen=22, nremotes=2, caps=(24, 4096), vlanes=[], mlanes=["map", "omap"], usecmd=True, keys=(1, 2, 3), faults=("rich",), advances=(25, 60), burst=True),
     ]
 
 
